@@ -454,7 +454,7 @@ func (h *hashChild) handle(line []byte) any {
 		counts[o]++
 		// goroutine accounting with a settle loop (the producer / closer may still be finishing)
 		after := runtime.NumGoroutine()
-		for t := 0; after > before && t < 120; t++ {
+		for t := 0; after > before && t < 250; t++ {
 			time.Sleep(time.Duration(1+t/10) * time.Millisecond)
 			after = runtime.NumGoroutine()
 		}
